@@ -349,6 +349,7 @@ type Server struct {
 
 	concurrency atomic.Uint32
 	open        atomic.Int32
+	serving     atomic.Int32
 	stop        atomic.Int32
 
 	rejectedRequestsCount atomic.Uint32
@@ -1999,12 +2000,12 @@ func (s *Server) Serve(ln net.Listener) error {
 	}
 	wp.Start()
 
-	// Count our waiting to accept a connection as an open connection.
+	// Count our waiting to accept a connection, so Shutdown keeps waiting.
 	// This way we can't get into any weird state where just after accepting
 	// a connection Shutdown is called which reads open as 0 because it isn't
 	// incremented yet.
-	s.open.Add(1)
-	defer s.open.Add(-1)
+	s.serving.Add(1)
+	defer s.serving.Add(-1)
 
 	for {
 		c, err := acceptConn(s, ln, &lastPerIPErrorTime)
@@ -2095,7 +2096,9 @@ func (s *Server) ShutdownWithContext(ctx context.Context) (err error) {
 	for {
 		s.closeIdleConns()
 
-		if open := s.open.Load(); open == 0 {
+		// serving must be loaded first: once no Serve is running,
+		// all the accepted connections are already counted in open.
+		if s.serving.Load() == 0 && s.open.Load() == 0 {
 			// There may be a pending request to call ctx.Done(). Therefore, we only set it to nil when open == 0.
 			s.done = nil
 			s.doneClosed = false
@@ -2268,14 +2271,6 @@ func (s *Server) GetCurrentConcurrency() uint32 {
 //
 // This function is intended be used by monitoring systems.
 func (s *Server) GetOpenConnectionsCount() int32 {
-	if s.stop.Load() == 0 {
-		// Decrement by one to avoid reporting the extra open value that gets
-		// counted while the server is listening.
-		return s.open.Load() - 1
-	}
-	// This is not perfect, because s.stop could have changed to zero
-	// before we load the value of s.open. However, in the common case
-	// this avoids underreporting open connections by 1 during server shutdown.
 	return s.open.Load()
 }
 
